@@ -13,7 +13,8 @@ STUBS = ['TaskInterface7requestERKNS0_7KeyTypeEm$=vf_request', 'TaskInterface10m
 def cases(cs, lo, hi):
     return [{'VF_CASE': c, 'VF_N': n} for c in cs for n in range(lo, hi + 1)]
 COMMON = dict(allow_external=['^_ZTVN7llbuild4core19BuildEngineDelegateE$', '^_ZTVN7llbuild5basic22ExecutionQueueDelegateE$', '^_ZTVN7llbuild4core4RuleE$', '^_ZTVN7llbuild4core4TaskE$'],  # base-class vtables: stored by the inlined base constructors and overwritten at once
-              stub_virtual=['^_ZN7llbuild4core19BuildEngineDelegate', '^_ZN7llbuild5basic22ExecutionQueueDelegate', 'CAPIBuildEngineDelegate5errorERKN4llvm5TwineE', 'CAPIBuildEngineDelegate20createExecutionQueue', '^_ZN7llbuild4core4(Rule|Task)'], harness='C20/h_capi.cpp', entry='harness_capi', cxxflags=['-I/repo/products/libllbuild/include'], stubs=STUBS, unwind=8, unwind_thorough=10)
+              stub_virtual=['^_ZN7llbuild4core19BuildEngineDelegate', '^_ZN7llbuild5basic22ExecutionQueueDelegate', 'CAPIBuildEngineDelegate5errorERKN4llvm5TwineE', 'CAPIBuildEngineDelegate20createExecutionQueue', '^_ZN7llbuild4core4(Rule|Task)'], harness='C20/h_capi.cpp', entry='harness_capi', cxxflags=['-I/repo/products/libllbuild/include'], stubs=STUBS, unwind=8, unwind_thorough=10,
+              unwindset='strlen.0:16')   # a C-string read of a length-delimited buffer runs off its end (pointer check) long before this bound
 OBLIGATIONS = [
     dict(COMMON, name='A1.task-requests', expect_functions=['^llb_buildengine_task_'],
          noinline=['^llb_buildengine_task_'], params_quick=cases([0, 1, 2], 0, 3), params_thorough=cases([0, 1, 2], 0, 5)),
